@@ -774,7 +774,7 @@ def run_model(chk, pairs, tag, per_file=400, workers=6):
                 continue
             for k, m in f.items():
                 masks[files[j][k]] = m
-    return masks, len(idx)
+    return masks, set(idx)
 
 
 def allowed_known(chk):
@@ -868,8 +868,8 @@ def minimise(chk, c, pred_kind):
 def process(chk, cases, tag, allowed, stats):
     results = run_impl(chk, cases)
     pairs = list(zip(cases, results))
-    masks, n_model = run_model(chk, pairs, tag)
-    chk.count("cases_compared_with_model", n_model)
+    masks, modelled = run_model(chk, pairs, tag)
+    chk.count("cases_compared_with_model", len(modelled))
     viol = []
     for i, (c, r) in enumerate(pairs):
         m = masks.get(i, 0)
@@ -889,7 +889,7 @@ def process(chk, cases, tag, allowed, stats):
             chk.count("non_integer_values")
         if c["kind"] == "valid":
             stats["tofmt"] += len(c.get("tofmt", []))
-            if noninv(o) and "items" in r:
+            if noninv(o) and "items" in r and i in modelled:
                 stored = py_entries(r["res"]) if ("indices" in r["res"] and not py_wf(r["res"])) else []
                 if any(perm2(k, o) != k for k, _ in stored):
                     if not (m & 4):
